@@ -125,8 +125,78 @@ def batched_rows(ck, tier, seed):
                                "sample(%d, %d context rows, batch_size=%s): rows hold draws for context ids %s" % (n_, rows, bs, ids.tolist()), case)
 
 
+def call_sequences(ck, tier, seed):
+    """the shapes and rows of a call depend on THAT call's arguments only: the same object is called repeatedly with contexts of
+    different row counts (earlier tensors freed, so that object identities and addresses get recycled) and with one context
+    tensor that is overwritten in place between calls"""
+    from torch import nn
+    from nflows.distributions import normal
+    from nflows.flows.base import Flow
+    from nflows.transforms.base import Transform
+
+    class Enc(nn.Module):
+        def forward(self, c):
+            return torch.cat([1000.0 * c, torch.zeros_like(c)], 1)
+
+    class Ident(Transform):
+        def forward(self, inputs, context=None):
+            return inputs, inputs.new_zeros(inputs.shape[0])
+
+        def inverse(self, inputs, context=None):
+            return inputs, inputs.new_zeros(inputs.shape[0])
+    objs = {"ConditionalDiagonalNormal": lambda: normal.ConditionalDiagonalNormal([1], context_encoder=Enc()),
+            "Flow(linear embedding, ConditionalDiagonalNormal)": lambda: Flow(Ident(), normal.ConditionalDiagonalNormal([1], context_encoder=Enc()),
+                                                                              embedding_net=nn.Linear(1, 1))}
+    for name, mk in objs.items():
+        d = mk()
+        scale, off = 1.0, 0.0
+        if "embedding" in name:
+            with torch.no_grad():
+                d._embedding_net.weight.fill_(2.0)
+                d._embedding_net.bias.fill_(1.0)
+            scale, off = 2.0, 1.0
+        d.eval()
+        for meth in ("sample", "sample_and_log_prob"):
+            rows_seq = [5, 3, 4, 1, 3, 5, 2]
+            for step, rows in enumerate(rows_seq):
+                ctx = torch.arange(1, rows + 1, dtype=torch.float32).reshape(rows, 1) + 10.0 * step      # a fresh tensor; the previous one is freed
+                with torch.no_grad():
+                    r = attempt(getattr(d, meth), 2, ctx)
+                ck.case(("seq", name, meth, step), nontrivial=True)
+                case = {"search": "call-sequence", "cls": name, "method": meth, "rows_sequence": rows_seq[:step + 1]}
+                smp = r[1] if (r[0] == "ok" and meth == "sample") else (r[1][0] if r[0] == "ok" else None)
+                if smp is None or list(smp.shape) != [rows, 2, 1]:
+                    ck.finding("sample-shape:after-earlier-calls:%s" % name,
+                               "%s(2, context with %d rows) as call %d on the same object -> %s" % (meth, rows, step + 1, list(smp.shape) if smp is not None else r[1:]), case)
+                    break
+                ids = torch.round(smp[..., 0] / 1000.0)
+                want = (scale * ctx + off).expand(rows, 2)
+                if not torch.equal(ids, want):
+                    ck.finding("sample:draws-under-wrong-context-row:after-earlier-calls:%s" % name,
+                               "%s call %d: rows hold draws for context ids %s, expected %s" % (meth, step + 1, ids[:, 0].tolist(), want[:, 0].tolist()), case)
+                    break
+                del ctx, r, smp
+            # one context tensor, overwritten in place between the calls
+            ctx = torch.arange(1, 4, dtype=torch.float32).reshape(3, 1)
+            for step in range(3):
+                with torch.no_grad():
+                    r = attempt(getattr(d, meth), 2, ctx)
+                ck.case(("seq-inplace", name, meth, step), nontrivial=True)
+                case = {"search": "context-overwritten-in-place", "cls": name, "method": meth, "step": step}
+                smp = r[1] if (r[0] == "ok" and meth == "sample") else (r[1][0] if r[0] == "ok" else None)
+                if smp is not None and list(smp.shape) == [3, 2, 1]:
+                    ids = torch.round(smp[..., 0] / 1000.0)
+                    want = (scale * ctx + off).expand(3, 2)
+                    if not torch.equal(ids, want):
+                        ck.finding("sample:draws-under-wrong-context-row:context-overwritten-in-place:%s" % name,
+                                   "%s after the context tensor was overwritten in place (%d times): draws for ids %s, expected %s"
+                                   % (meth, step, ids[:, 0].tolist(), want[:, 0].tolist()), case)
+                        break
+                ctx.add_(7.0)
+
+
 def run(tier, seed):
-    ck = Check("C18", tier, seed, areas=["shapes"], gen_groups=["DistBase", "Typechecks"])
+    ck = Check("C18", tier, seed, areas=["shapes"], gen_groups=["DistBase", "Typechecks", "FlowRows"])
     ck.rule = ("every distribution / flow class in the catalogue x num_samples 1..7 x batch_size {None,1..8} x context "
                "{none, 1..3 rows} x bad arguments; compared as exact shapes / exception classes with the extracted "
                "model; non-trivial = the call returns samples for n >= 2; distinct by (class, n, batch, rows)")
@@ -226,6 +296,7 @@ def run(tier, seed):
                 ck.finding("sample:bad-batch-size-not-TypeError:%s" % name.split("[")[0].split("(")[0],
                            "sample(3, batch_size=%r) -> %s" % (badbs, r[:2]), {"search": "badbs", "cls": name, "arg": repr(badbs)})
     batched_rows(ck, tier, seed)
+    call_sequences(ck, tier, seed)
     if drv is not None:
         ck.sample({"call": "StandardNormal([2,3]).sample(5, context rows 4, batch_size 2)",
                    "model": model(drv, "sample", Z([2, 3]), p(5), Z([4, 7]), p(2), z(1))})
